@@ -342,6 +342,35 @@ func ruleEF2() Rule {
 				})
 				f.OwnNodes(func(x ast.Node) bool {
 					r, ok := x.(*ast.ReturnStmt)
+					if ok && len(r.Results) == 1 {
+						// return l.result(): an accessor whose every return hands out its receiver's slot
+						if call, isCall := ast.Unparen(r.Results[0]).(*ast.CallExpr); isCall {
+							if fo := core.StaticCallee(info, call); fo != nil {
+								if m := c.P.FuncOf(fo); m != nil && m.Decl != nil && m.Decl.Recv != nil && m.Body != nil {
+									mi := m.Info()
+									rets, good := 0, 0
+									m.OwnNodes(func(y ast.Node) bool {
+										if mr, isRet := y.(*ast.ReturnStmt); isRet {
+											rets++
+											if len(mr.Results) == 3 && core.FieldOf(mi, mr.Results[2]) == slot {
+												if se, isSel := ast.Unparen(mr.Results[2]).(*ast.SelectorExpr); isSel {
+													if id, isID := ast.Unparen(se.X).(*ast.Ident); isID && len(m.Decl.Recv.List) == 1 && len(m.Decl.Recv.List[0].Names) == 1 && mi.Uses[id] == mi.Defs[m.Decl.Recv.List[0].Names[0]] {
+														good++
+													}
+												}
+											}
+										}
+										return true
+									})
+									if rets > 0 && rets == good {
+										n++
+										rr.OK(f, f.Name+"|return "+exprStr(call.Fun)+"()", r.Pos(), "slot", "returns the lexer's error slot through an accessor of the lexer")
+									}
+								}
+							}
+						}
+						return true
+					}
 					if !ok || len(r.Results) != 3 {
 						return true
 					}
